@@ -1,0 +1,79 @@
+//go:build verif
+
+package trafficcontroller
+
+// Contracts for property C11 (hot update of pipelines through the TrafficController). Comment-only file.
+
+/*@
+// the pipelines of a namespace live in a sync.Map (name -> *supervisor.ObjectEntity)
+pred pl(sp *Namespace, n string) := smHas[addr(sp.pipelines)][typeTag("string")][boxed("string", n)]
+pred plVal(sp *Namespace, n string) := smVal[addr(sp.pipelines)][typeTag("string")][boxed("string", n)]
+pred plTyp(sp *Namespace, n string) := smTyp[addr(sp.pipelines)][typeTag("string")][boxed("string", n)]
+pred spaceOK(sp *Namespace) := sp != nil && (forall n string :: pl(sp, n) ==> plTyp(sp, n) == typeTag("*supervisor.ObjectEntity") && plVal(sp, n) != 0 && ptr(plVal(sp, n), "*supervisor.ObjectEntity").spec != nil && ptr(plVal(sp, n), "*supervisor.ObjectEntity").spec.meta != nil)
+pred spacesOK(tc *TrafficController) := tc.namespaces != nil && (forall ns string :: (ns in tc.namespaces) ==> spaceOK(tc.namespaces[ns]))
+// the sync.Map fields of different namespace objects are different maps
+axiom different-namespaces-have-different-maps: forall a, b *Namespace :: addr(a.pipelines) == addr(b.pipelines) ==> a == b
+axiom string-keys-compare-by-value: forall a, b string :: boxed("string", a) == boxed("string", b) ==> a == b
+
+ghost var gSpace int      // the namespace object the operation worked on
+ghost var gName string    // the pipeline name it worked on
+ghost var gHad bool       // whether that name was live before
+ghost var gPrev int       // ... and which entity it held
+ghost var gPublished bool
+ghost var gPublishedBuilt bool
+ghost var gBase int
+
+// (trusted only for: the zero sync.Map inside a freshly allocated Namespace is empty)
+func newNamespace(namespace string) (sp *Namespace)
+  trusted
+  flag allocates
+  ensures sp != nil && fresh(sp) && sp.namespace == namespace
+  ensures a-new-namespace-has-no-pipelines: forall n string :: !pl(sp, n)
+
+func (tc *TrafficController) _cleanSpace(namespace string)
+  trusted
+  requires tc != nil
+  modifies entries(tc.namespaces)
+
+// ApplyPipeline: create, update or leave alone exactly one pipeline; nothing else changes
+func (tc *TrafficController) ApplyPipeline(namespace string, entity *supervisor.ObjectEntity) (res *supervisor.ObjectEntity, err error)
+  flag allocates
+  flag frame=unchecked
+  requires tc != nil && spacesOK(tc) && entity != nil && entity.spec != nil && entity.spec.meta != nil
+  requires the-new-entity-is-not-live-anywhere: forall ns, n string :: (ns in tc.namespaces) && pl(tc.namespaces[ns], n) ==> plVal(tc.namespaces[ns], n) != ref(entity)
+  ensures empty-namespace-is-refused-and-changes-nothing: namespace == "" ==> err != nil && smHas == old(smHas) && smVal == old(smVal) && inits == old(inits) && inherits == old(inherits) && closes == old(closes)
+  ensures unchanged-spec-is-a-no-op: err == nil && gHad && ptr(gPrev, "*supervisor.ObjectEntity").spec.sid == entity.spec.sid ==> res == ptr(gPrev, "*supervisor.ObjectEntity") && smHas == old(smHas) && smVal == old(smVal) && inits == old(inits) && inherits == old(inherits) && closes == old(closes)
+  ensures a-new-name-is-initialised-once-and-then-published: err == nil && !gHad ==> res == entity && inits == old(store(inits, ref(entity), inits[ref(entity)] + 1)) && inherits == old(inherits) && pl(ptr(gSpace, "*Namespace"), gName) && plVal(ptr(gSpace, "*Namespace"), gName) == ref(entity)
+  ensures a-changed-spec-inherits-once-from-the-live-generation-and-then-replaces-it: err == nil && gHad && ptr(gPrev, "*supervisor.ObjectEntity").spec.sid != entity.spec.sid ==> res == entity && inherits == old(store(inherits, ref(entity), inherits[ref(entity)] + 1)) && inhPrev[ref(entity)] == gPrev && inits == old(inits) && plVal(ptr(gSpace, "*Namespace"), gName) == ref(entity)
+  ensures no-other-pipeline-is-touched: forall sp *Namespace; n string :: allocated(sp) && !(ref(sp) == gSpace && n == gName) ==> (pl(sp, n) <==> old(pl(sp, n))) && plVal(sp, n) == old(plVal(sp, n))
+  ensures nothing-is-closed-by-apply: closes == old(closes)
+  ensures a-generation-is-published-only-after-it-was-built: gPublished ==> gPublishedBuilt
+  ghost at entry: gHad := false
+  ghost at entry: gPublished := false
+  ghost at entry: gBase := inits[ref(entity)] + inherits[ref(entity)]
+  ghost at call Store: gPublished := true
+  ghost at call Store: gPublishedBuilt := (inits[ifaceVal(value)] + inherits[ifaceVal(value)] == gBase + 1) && ifaceVal(value) == ref(entity)
+  ghost at call[1] Name: gName := n
+  ghost at call[1] Load: gHad := ok
+  ghost at call[1] Load: gPrev := ifaceVal(value)
+  ghost at call[1] Load: gSpace := ref(space)
+
+func (tc *TrafficController) DeletePipeline(namespace string, name string) (err error)
+  flag allocates
+  flag frame=unchecked
+  requires tc != nil && spacesOK(tc)
+  ensures missing-namespace-or-name-changes-nothing: err != nil ==> smHas == old(smHas) && closes == old(closes)
+  ensures the-pipeline-is-removed-and-closed-exactly-once: let g = gPrev in (err == nil ==> gHad && !pl(ptr(gSpace, "*Namespace"), name) && closes == old(store(closes, g, closes[g] + 1)))
+  ensures no-other-pipeline-is-touched: forall sp *Namespace; n string :: allocated(sp) && !(ref(sp) == gSpace && n == name) ==> (pl(sp, n) <==> old(pl(sp, n))) && plVal(sp, n) == old(plVal(sp, n))
+  ghost at entry: gHad := false
+  ghost at call[1] LoadAndDelete: gHad := loaded
+  ghost at call[1] LoadAndDelete: gPrev := ifaceVal(value)
+  ghost at call[1] LoadAndDelete: gSpace := ref(space)
+
+// the handler of a name is the instance of the entity that is currently published under it
+func (ns *Namespace) GetHandler(name string) (h context.Handler, ok bool)
+  requires spaceOK(ns)
+  requires published-pipelines-are-pipelines: forall n string :: pl(ns, n) ==> typeIs(ptr(plVal(ns, n), "*supervisor.ObjectEntity").instance, "*pipeline.Pipeline")
+  ensures ok == pl(ns, name)
+  ensures ok ==> h == ptr(plVal(ns, name), "*supervisor.ObjectEntity").instance
+@*/
